@@ -340,6 +340,11 @@ bool Terminal::Impl::executeRunHistoryCmd(SessionContext *s, const Args &args)
 {
     string sub_cmd = args[0].substr(1);
     if (sub_cmd == "!") {
+        if (s->history.empty()) {
+            s->wp_conn->send(s->token, "Error: no history.\r\n");
+            return false;
+        }
+
         s->curr_input = s->history.back();
         return execute(s);
     }
